@@ -241,6 +241,7 @@ fn view_of(bytes: &[u8]) -> Option<Box<ScionRawPacketView>> {
 pub fn run(args: &Args, mon: &mut Mon) -> (String, Vec<&'static str>) {
     mon.floor("error_packets", 3000);
     mon.floor("echo_replies", 500);
+    mon.floor("echo_over_onehop", 50);
     mon.floor("no_reply_cases", 2000);
     mon.floor("sim_replies", 500);
     let thorough = args.thorough();
@@ -342,7 +343,13 @@ pub fn run(args: &Args, mon: &mut Mon) -> (String, Vec<&'static str>) {
         rest.extend_from_slice(&id.to_be_bytes());
         rest.extend_from_slice(&seq.to_be_bytes());
         rest.extend_from_slice(&data);
-        let echo_path = random_path(&mut r, true);
+        // one request in five arrives over a completed one-hop path
+        let echo_path = if r.chance(1, 5) {
+            let mk = |r: &mut Rng| RHop { flags: 0, exp: r.u8(), cons_in: 1 + r.u16() % 65535, cons_eg: r.u16(), mac: <[u8; 6]>::try_from(r.bytes(6)).unwrap() };
+            RPath::OneHop { info: RInfo { flags: r.u8() & 1, rsv: 0, seg_id: r.u16(), timestamp: r.u32() }, hops: [mk(&mut r), mk(&mut r)] }
+        } else {
+            random_path(&mut r, true)
+        };
         let (req_model, req) = packet(&mut r, echo_path.clone(), 202, scmp_bytes(128, 0, &rest), true);
         let handler = DefaultEchoHandler::new();
         let replay = json!({"case": info, "part": "echo", "request": hex(&req[..req.len().min(200)])});
@@ -367,6 +374,12 @@ pub fn run(args: &Args, mon: &mut Mon) -> (String, Vec<&'static str>) {
                                 }
                                 let want = match &echo_path {
                                     RPath::Standard(sp) => sp.reversed().map(RPath::Standard),
+                                    // a one-hop path is answered over the two-hop standard path in
+                                    // the opposite direction (hop fields swapped, CONS_DIR flipped)
+                                    RPath::OneHop { info, hops } => {
+                                        m.count("echo_over_onehop");
+                                        Some(RPath::Standard(RStdPath { curr_inf: 0, curr_hf: 0, rsv: 0, seg_len: [2, 0, 0], infos: vec![RInfo { flags: info.flags ^ 1, ..info.clone() }], hops: vec![hops[1].clone(), hops[0].clone()] }))
+                                    }
                                     other => Some(other.clone()),
                                 };
                                 if want.is_some() && Some(&p.path) != want.as_ref() {
@@ -484,7 +497,7 @@ pub fn run(args: &Args, mon: &mut Mon) -> (String, Vec<&'static str>) {
     let sock_rule = crate::sock::run_part(args, mon, if thorough { 6_000 * scale } else { 400 * scale });
     mon.sample_labeled("parts", || json!(["sciparse-model (5 error kinds)", "pocketscion send-scmp-error / forward-local", "echo (DefaultEchoHandler, pocketscion router)", "no-reply (errors quoting echo requests / errors, unknown types, non-requests, bad checksums, truncations)"]));
     (
-        format!("{n} offending packets (0..9216 B, IPv4/IPv6 hosts, empty and standard paths of 1-15 hop fields at their last hop) x all 5 SCMP error kinds built through ScionScmpPacket over the reversed path, through pocketscion's LocalNetworkSimulation (SendSCMPErrorResponse with each kind, ForwardLocal into an AS without receivers) and echo requests (random id/seq/0-300 B data) through DefaultEchoHandler and the simulator's router; plus per case ~20 packets that must stay unanswered (every error type quoting an echo request, an error quoting an error, unknown error types, echo replies / traceroute replies / unknown informational types, echo requests with a wrong checksum, truncated SCMP). Every produced packet is decoded by the reference: length <= 1232, quote is a prefix of the offender, checksum, type; echo replies mirror id/seq/data, swap addresses and carry the reference-reversed path. distinct = (origin, type, fully quoted?, at the size limit?, path type, address lengths), quiet-packet labels and, for the socket part, packet kinds seen per mode and kind adjacencies. {sock_rule}"),
+        format!("{n} offending packets (0..9216 B, IPv4/IPv6 hosts, empty and standard paths of 1-15 hop fields at their last hop) x all 5 SCMP error kinds built through ScionScmpPacket over the reversed path, through pocketscion's LocalNetworkSimulation (SendSCMPErrorResponse with each kind, ForwardLocal into an AS without receivers) and echo requests (random id/seq/0-300 B data; one in five over a completed one-hop path, to be answered over the two-hop standard path in the opposite direction) through DefaultEchoHandler and the simulator's router; plus per case ~20 packets that must stay unanswered (every error type quoting an echo request, an error quoting an error, unknown error types, echo replies / traceroute replies / unknown informational types, echo requests with a wrong checksum, truncated SCMP). Every produced packet is decoded by the reference: length <= 1232, quote is a prefix of the offender, checksum, type; echo replies mirror id/seq/data, swap addresses and carry the reference-reversed path. distinct = (origin, type, fully quoted?, at the size limit?, path type, address lengths), quiet-packet labels and, for the socket part, packet kinds seen per mode and kind adjacencies. {sock_rule}"),
         vec![
             "trusted: refscion's decoder, RFC1071 checksum over the SCION pseudo header, path reversal and SCMP layout table",
             "socket part: the underlay is an in-memory channel (hook socket_over_channel), not the UDP/SNAP underlays; every injected packet decodes as a SCION packet (the underlay contract); a receive call still pending 30 s after the sentinel datagram was injected is reported as stuck",
